@@ -4,10 +4,10 @@
    order, raise for the same blobs, and ask the oracle the same questions, PROVIDED
    (H1)  under SV_BASE the WITNESS_PUBKEYTYPE flag is clear,
    (H2)  one of DERSIG / LOW_S / STRICTENC is set, OR the oracle rejects what pycoin's lax DER reader rejects,
-   (fad) under SV_BASE the script code pycoin hashes (minimal pushes of all signature blobs deleted, bottom
-         first) is the one Core hashes (plain pushes, top first): `fad_agree script` — property C04's business;
-         it fails for scripts holding OP_1..OP_16 / OP_1NEGATE when a one-byte blob is among the signatures
-         (a real deviation of /repo, reported), and needs every blob shorter than 2^32 bytes. *)
+   (fad) under SV_BASE the script code pycoin hashes (pushes of all signature blobs deleted, bottom first) is the
+         one Core hashes (top first): `fad_ok tail`, part of the invariant Inv_sig; it is proved in
+         Proofs/AgreeFad.v for every decodable script code and needs every blob shorter than 2^32 bytes.
+         (Before /repo commit 2ba5b6d pycoin deleted the MINIMAL push: a real deviation, reported.) *)
 From Coq Require Import Lia ZifyBool ZifyNat ZifyN.
 From PV Require Import Base.Bytes Base.Outcome Gen.GenOpcodes Gen.GenFlags.
 From PV Require Import Model.ScriptNum Model.Push Model.CondStack Model.Der Spec.CondStackCore Proofs.CondStackP.
@@ -23,10 +23,11 @@ Definition core_code (sv : sigversion) (sigs : list bytes) (tail : bytes) : byte
   | SV_WITNESS_V0 => tail
   end.
 
-(* the script-code equality owned by C04 *)
-Definition fad_agree (script : bytes) : Prop :=
-  forall (bch : nat) (sigs : list bytes), Forall item_ok sigs ->
-  delete_signatures (skipn bch script) (rev sigs) = Ret (core_code SV_BASE sigs (skipn bch script)).
+(* the script-code equality (C04's subject) for one script code `tail` = the script from the last executed
+   OP_CODESEPARATOR on; proved for every decodable tail in Proofs/AgreeFad.v *)
+Definition fad_ok (tail : bytes) : Prop :=
+  forall sigs, Forall item_ok sigs ->
+  delete_signatures tail (rev sigs) = Ret (core_code SV_BASE sigs tail).
 
 Lemma Forall_firstn {A} (P : A -> Prop) n : forall l, Forall P l -> Forall P (firstn n l).
 Proof. induction n; intros l H; destruct l; cbn; auto. inversion H; subst. constructor; auto. Qed.
@@ -41,7 +42,6 @@ Variable ctx : txctx.
 Variable script : bytes.
 Hypothesis H1w : sv = SV_BASE -> flag_set flags VERIFY_WITNESS_PUBKEYTYPE = false.
 Hypothesis H2 : strict flags = true \/ lax_contract o sv.
-Hypothesis Hfad : sv = SV_BASE -> fad_agree script.
 
 Notation abs := (abs script).
 Notation hres := (hres script).
@@ -144,10 +144,10 @@ Qed.
 End Loop.
 
 (* ---- checksigs ---------------------------------------------------------------------------------------------------- *)
-Lemma code_agree s sigs : (sv = SV_BASE -> Forall item_ok sigs) ->
+Lemma code_agree s sigs : (sv = SV_BASE -> fad_ok (skipn (st_bch s) script)) -> (sv = SV_BASE -> Forall item_ok sigs) ->
   script_code_for sv script s (rev sigs) = Ret (core_code sv sigs (skipn (st_bch s) script)).
 Proof.
-  intros Hi. unfold script_code_for, core_code. destruct sv eqn:Esv; [|reflexivity].
+  intros Hfad Hi. unfold script_code_for, core_code. destruct sv eqn:Esv; [|reflexivity].
   apply (Hfad eq_refl). apply Hi. reflexivity.
 Qed.
 
@@ -158,7 +158,8 @@ Proof.
   destruct (Nat.ltb_spec 0 (length sg)); destruct (N.eqb_spec (N.of_nat (length sg)) 0); cbn; lia.
 Qed.
 
-Lemma checksigs_agree s sigs keys : (length sigs <= length keys)%nat -> (sv = SV_BASE -> Forall item_ok sigs) ->
+Lemma checksigs_agree s sigs keys : (length sigs <= length keys)%nat ->
+  (sv = SV_BASE -> fad_ok (skipn (st_bch s) script)) -> (sv = SV_BASE -> Forall item_ok sigs) ->
   let code := core_code sv sigs (skipn (st_bch s) script) in
   let anb := flag_set flags VERIFY_NULLFAIL && existsb (fun sg => negb (len sg =? 0)) sigs in
   match checksigs o flags sv script s sigs keys, cms_loop o flags sv code sigs keys with
@@ -168,7 +169,7 @@ Lemma checksigs_agree s sigs keys : (length sigs <= length keys)%nat -> (sv = SV
   | _, _ => False
   end.
 Proof.
-  intros Hlen Hi code anb. unfold checksigs. rewrite (code_agree s sigs Hi). fold code.
+  intros Hlen Hfad Hi code anb. unfold checksigs. rewrite (code_agree s sigs Hfad Hi). fold code.
   unfold VMpy.flag. rewrite nonblank_eq. fold anb.
   pose proof (proj1 (loop_agree anb code keys) sigs Hlen) as H. unfold R in H.
   destruct (checksigs_outer o flags sv sigs keys anb (Ret code)) as [[|]| |e|],
@@ -187,13 +188,13 @@ Qed.
 Lemma cast_bool_vec b : cast_to_bool (bool_vec b) = b.
 Proof. destruct b; reflexivity. Qed.
 
-Definition Inv_sig (stk alt : list bytes) : Prop :=
-  sv = SV_BASE -> Forall item_ok stk /\ Forall item_ok alt /\ N.of_nat (length stk) < 2 ^ 32.
+Definition Inv_sig (stk alt : list bytes) (tail : bytes) : Prop :=
+  sv = SV_BASE -> Forall item_ok stk /\ Forall item_ok alt /\ N.of_nat (length stk) < 2 ^ 32 /\ fad_ok tail.
 
 Notation hres_nf := (hres_nf script).
 
 (* family (9) *)
-Lemma agree_checksig (verify : bool) s vf rest fx : Inv_sig (st_stack s) (st_alt s) ->
+Lemma agree_checksig (verify : bool) s vf rest fx : Inv_sig (st_stack s) (st_alt s) (skipn (st_bch s) script) ->
   hres_nf s vf (handler (if verify then KCheckSigVerify else KCheckSig) s)
              (exec_op (if verify then xad else xac) rest fx (abs s vf)).
 Proof.
@@ -212,7 +213,8 @@ Proof.
   set (s2 := mkst pc r alt cond opc bch).
   assert (Hi : sv = SV_BASE -> Forall item_ok [sig]).
   { intros Eb. destruct (HI Eb) as (Hs & _). inversion Hs as [|? ? _ Hs']. inversion Hs'; subst. constructor; auto. }
-  pose proof (checksigs_agree s2 [sig] [key] ltac:(cbn; lia) Hi) as H. cbv zeta in H.
+  assert (Hfad : sv = SV_BASE -> fad_ok (skipn (st_bch s2) script)) by (intros Eb; apply (HI Eb)).
+  pose proof (checksigs_agree s2 [sig] [key] ltac:(cbn; lia) Hfad Hi) as H. cbv zeta in H.
   rewrite cms_single in H.
   change (core_code sv [sig] (skipn (st_bch s2) script))
     with (match sv with SV_BASE => find_and_delete (push_encode sig) (skipn bch script) | SV_WITNESS_V0 => skipn bch script end) in H.
@@ -261,7 +263,7 @@ Definition cms_rel (vf : list bool) (cond : cstate) (opc' : Z) (py : vres vmstat
   end.
 
 Lemma agree_cms (verify : bool) s vf rest fx :
-  cond_rel (st_cond s) vf -> Inv_sig (st_stack s) (st_alt s) -> (0 <= st_opc s)%Z ->
+  cond_rel (st_cond s) vf -> Inv_sig (st_stack s) (st_alt s) (skipn (st_bch s) script) -> (0 <= st_opc s)%Z ->
   hres s (handler (if verify then KCheckMultiSigVerify else KCheckMultiSig) s)
          (exec_op (if verify then xaf else xae) rest fx (abs s vf)).
 Proof.
@@ -332,7 +334,8 @@ Proof.
     apply Forall_firstn. pose proof (Forall_skipn item_ok nkeys _ Hs1) as K. rewrite Esk in K. inversion K; assumption. }
   assert (Hlen : (length sigs <= length keys)%nat).
   { unfold sigs, keys. rewrite !firstn_length. unfold nsigs, nkeys in *. lia. }
-  pose proof (checksigs_agree s5 sigs keys Hlen Hi) as H. cbv zeta in H.
+  assert (Hfad : sv = SV_BASE -> fad_ok (skipn (st_bch s5) script)) by (intros Eb; apply (HI Eb)).
+  pose proof (checksigs_agree s5 sigs keys Hlen Hfad Hi) as H. cbv zeta in H.
   change (skipn (st_bch s5) script) with (skipn bch script) in H.
   change (match sv with
           | SV_BASE => fold_left (fun c sg => find_and_delete (push_encode sg) c) sigs (skipn bch script)
